@@ -29,10 +29,11 @@ const (
 	evRxNoPrev
 	evRxDuplicate // the most recently received bundle arrives once more, from another connected peer
 	evFailOne     // only the first connected peer fails / works again
+	evOwnBack     // a copy of a locally submitted bundle the node transmitted is handed back by a connected peer
 	nEvents
 )
 
-var evNames = []string{"submit", "rx_from_a", "rx_from_b", "up_a", "up_b", "up_c", "down", "toggle_fail", "retry_tick", "restart", "up_dest", "rx_without_previous_node", "rx_duplicate", "toggle_fail_first_peer"}
+var evNames = []string{"submit", "rx_from_a", "rx_from_b", "up_a", "up_b", "up_c", "down", "toggle_fail", "retry_tick", "restart", "up_dest", "rx_without_previous_node", "rx_duplicate", "toggle_fail_first_peer", "own_bundle_comes_back"}
 
 type tracked struct {
 	id       string // bundle ID on the wire
@@ -172,6 +173,23 @@ func (sc *scenario) apply(ev int) {
 					break
 				}
 			}
+		}
+	case evOwnBack:
+		for _, rec := range sc.s.Sends() {
+			tr := sc.byPID[rec.PID]
+			if tr == nil || tr.prev != "" || rec.ParseErr != "" || !sc.held(tr) {
+				continue
+			}
+			if rec.Bundle.Src != model.Dtn("node", "app") {
+				continue
+			}
+			for _, n := range []string{"c", "b", "a"} {
+				if sc.up[n] {
+					_ = sc.s.Deliver(n, rec.Bytes)
+					break
+				}
+			}
+			break
 		}
 	case evFailOne:
 		if n := sc.firstUp(); n != "" {
@@ -497,6 +515,19 @@ func TestCheck(t *testing.T) {
 			}
 		})
 	}
+
+	// scripted duplicate receptions: the node holds a bundle it already handed on and receives it once more
+	scripts := [][]int{
+		{evUpA, evRxFromA, evUpB, evUpC, evRxDuplicate, evTick, evTick},
+		{evUpA, evUpB, evSubmit, evUpC, evOwnBack, evTick, evTick},
+		{evUpA, evRxFromA, evUpB, evRxDuplicate, evTick, evUpC, evTick},
+		{evUpA, evUpB, evSubmit, evOwnBack, evUpC, evTick, evRxDuplicate, evTick},
+		{evUpA, evUpB, evUpC, evRxFromB, evRxDuplicate, evDown, evUpA, evTick},
+		{evUpA, evSubmit, evUpB, evOwnBack, evTick, evOwnBack, evUpC, evTick},
+	}
+	r.Group("duplicates", len(scripts)*len(algos), func(i int, rng *report.Rand) {
+		run(algos[i%len(algos)], scripts[i/len(algos)])
+	})
 
 	for _, a := range []string{"epidemic", "prophet", "spray"} {
 		a := a
